@@ -252,6 +252,12 @@ class Run:
         if kind == 'quota':
             st._quota = None
         self.phase = phase
+        from ZODB.POSException import StorageTransactionError
+        if isinstance(raised, StorageTransactionError):
+            # the victim's own calls carry the right transaction (the
+            # calls with a foreign one must not disturb the one in flight)
+            self.flag('victim-exception', 'unexpected %s in %s: %s'
+                      % (type(raised).__name__, phase, str(raised)[:60]))
         if kind in ('conflict', 'quota', 'longmeta') and raised is None \
                 and not getattr(self, 'skipped', False):
             self.flag('failure-not-reported', 'the %s did not raise' % kind)
